@@ -16,7 +16,11 @@ from simkit.core import EventLog
 from simkit.runner import Engine, Result
 
 P = "C20"
-KEYS = ["up", "down", "page up", "page down", "home", "end", "a", "left", "right", "enter", "tab", "Q"]
+KEYS = ["up", "down", "page up", "page down", "home", "end", "a", "left", "right", "enter", "tab", "Q", "j", "k"]
+# scroll action a key is bound to: in urwid's default command map, and in the widget's own map of the sessions with
+# config "cmap" (vi-style j / k added, home unbound: Widget._command_map is the documented per-widget binding table)
+DEFAULT_BINDINGS = {"up": "line-up", "down": "line-down", "page up": "page-up", "page down": "page-down", "home": "top", "end": "end"}
+OWN_BINDINGS = {"up": "line-up", "down": "line-down", "page up": "page-up", "page down": "page-down", "end": "end", "j": "line-down", "k": "line-up"}
 THUMB = "█"
 
 
@@ -112,6 +116,17 @@ class _Run:
         cfg = self.scen["config"]
         inner = build_inner(cfg["inner"])
         sc = urwid.Scrollable(inner, force_forward_keypress=bool(cfg.get("ffk", False)))
+        self.bindings = DEFAULT_BINDINGS
+        if cfg.get("cmap"):
+            from urwid.command_map import Command  # noqa: PLC0415
+
+            cm = urwid.command_map.copy()
+            cm["j"] = Command.DOWN
+            cm["k"] = Command.UP
+            del cm["home"]
+            sc._command_map = cm
+            self.bindings = OWN_BINDINGS
+            self.res.probe("widget_with_its_own_command_map")
         bar = None
         top = sc
         bw = 0
@@ -239,6 +254,12 @@ class _Run:
                     self.log.add("key", [key, repr(rv), self.inner_handled])
                     if rv is not None and rv != key:
                         self.violate("C20.3", "keypress-returned-a-different-key", f"{key!r} -> {rv!r}")
+                    elif not self.inner_handled and (rv is None) != (key in self.bindings):
+                        # a key the wrapped widget did not take is used exactly when the Scrollable's command map binds it
+                        # to a scroll command
+                        self.violate("C20.3", "scroll-key-not-used" if rv is not None else "unbound-key-swallowed", f"step {i}: {key!r} -> {rv!r} (bound to {self.bindings.get(key)!r}, wrapped widget handled it: {self.inner_handled!r})")
+                    op = dict(op, _inner_handled=self.inner_handled, _used=rv is None, _cursor_may_pull=getattr(self.sc, "_old_cursor_coords", None) is not None)
+                    since_render[-1] = op
                     if self.inner_handled and pending_actions == 0:
                         handled_key_since_render = (key, p_before)
                         res.probe("key_handled_by_wrapped_widget")
@@ -326,6 +347,23 @@ class _Run:
                 return
             want = max(0, min(pmax, prev[1] + (-1 if op.get("up") else 1)))
             what = f"wheel {'up' if op.get('up') else 'down'}"
+        elif op["op"] == "key" and op.get("_used") and not op.get("_inner_handled") and not op.get("_cursor_may_pull"):
+            # a scrolling key the wrapped widget did not take: one row for the line keys, towards the named end and at
+            # most one view height for the page keys, the first / last window for home / end
+            act = self.bindings.get(KEYS[op["k"] % len(KEYS)])
+            what = f"key {KEYS[op['k'] % len(KEYS)]!r} ({act})"
+            if act in ("page-up", "page-down"):
+                least = 1 if rows >= 2 else 0  # (a page is the view height less one row of context: nothing in a one-row view)
+                lo, hi = (max(0, prev[1] - rows), max(0, prev[1] - least)) if act == "page-up" else (min(pmax, prev[1] + least), min(pmax, prev[1] + rows))
+                if not lo <= p <= hi:
+                    self.violate("C20.1", "position-change-not-honoured:key", f"step {i} size {size} content rows {total}: {what} from position {prev[1]}: expected {lo}..{hi}, Scrollable reports {p}")
+                    return
+                self.res.probe("position_change_by_key_checked")
+                return
+            want = {"line-up": max(0, prev[1] - 1), "line-down": min(pmax, prev[1] + 1), "top": 0, "end": pmax}.get(act)
+            if want is None:
+                return
+            self.res.probe("position_change_by_key_checked")
         else:
             return
         if p != want:
@@ -393,6 +431,7 @@ class _Run:
 
                 self.sc = _u.Scrollable(self.inner, force_forward_keypress=bool(self.scen["config"].get("ffk", False)))
                 self.bar.original_widget = self.sc
+                self.bindings = DEFAULT_BINDINGS  # (the new Scrollable has the shared command map)
                 self.res.probe("scrollable_under_the_bar_replaced")
             else:
                 self.sc.original_widget = self.inner
@@ -745,7 +784,7 @@ class ScrollEngine(Engine):
         "ListBox under ScrollBar: the first visible row is read off the rendered view (every row of every item is unique); items have at least one row",
     ]
     components = {"real": ["Scrollable, ScrollBar, Pile/Text/Edit/Button/Divider, canvas trimming"], "stub": [], "driven": ["batching of actions before a render", "resize placement"]}
-    required_probes = ("two_actions_before_one_render", "negative_position", "content_shrinks_below_view", "one_row_view", "cursor_scrolled_out_of_view", "scrollbar_drawn", "scrollbar_not_needed", "key_handled_by_wrapped_widget", "listbox_relative_scrolling", "listbox_bar_geometry_checked")
+    required_probes = ("two_actions_before_one_render", "negative_position", "content_shrinks_below_view", "one_row_view", "cursor_scrolled_out_of_view", "scrollbar_drawn", "scrollbar_not_needed", "key_handled_by_wrapped_widget", "listbox_relative_scrolling", "listbox_bar_geometry_checked", "widget_with_its_own_command_map", "position_change_by_key_checked")
     reducible = ("ops",)
 
     def generate(self, rng: random.Random, tier: str) -> dict:
@@ -775,6 +814,8 @@ class ScrollEngine(Engine):
         cfg = {"inner": inner, "size": size}
         if rng.random() < 0.3:
             cfg["ffk"] = True  # force_forward_keypress: keys go to the wrapped widget before the first render knows it is selectable
+        if rng.random() < 0.2:
+            cfg["cmap"] = True  # the Scrollable has a command map of its own
         if rng.random() < 0.5:
             cfg["bar"] = {"side": rng.choice(["left", "right"]), "width": rng.choice([1, 1, 2])}
             if rng.random() < 0.3:
